@@ -85,37 +85,76 @@ func panStr(p any) string { return "panic: " + fmt.Sprint(p) }
 func kEnc1(via, alg string, key jwk.Key, nonce, pt, aad []byte) (r encRes) {
 	k2, kb := privKey(key)
 	p, n, a := lay(pt), lay(nonce), lay(aad)
-	defer func() {
-		if x := recover(); x != nil {
-			r = encRes{pan: panStr(x)}
-		}
-	}()
-	if via == "Encrypt" {
-		r.ct, r.tag, r.err = kc.Encrypt(p, alg, k2, n, a)
-	} else {
+	if via != "Encrypt" {
 		via = "EncryptSymmetric"
-		r.ct, r.tag, r.err = kc.EncryptSymmetric(p, alg, k2, n, a)
 	}
-	settle(via, alg, rpm("algorithm", alg, "key", key, "nonce", nonce, "plaintext", pt, "aad", aad), [][]byte{p, n, a, kb}, []string{"ciphertext", "tag"}, &r.ct, &r.tag)
+	call := func() (r encRes) {
+		defer func() {
+			if x := recover(); x != nil {
+				r = encRes{pan: panStr(x)}
+			}
+		}()
+		if via == "Encrypt" {
+			r.ct, r.tag, r.err = kc.Encrypt(p, alg, k2, n, a)
+		} else {
+			r.ct, r.tag, r.err = kc.EncryptSymmetric(p, alg, k2, n, a)
+		}
+		return r
+	}
+	rp := rpm("algorithm", alg, "key", key, "nonce", nonce, "plaintext", pt, "aad", aad)
+	r = call()
+	// every symmetric algorithm here is deterministic given the nonce: identical outputs; the dispatcher also
+	// reaches the randomised RSA encryptions, where only error/no error can be compared
+	_, randomised := rsaTable[alg]
+	last := repeatCheck(via, alg, rp, r, call, func(x, y encRes) string {
+		if randomised {
+			return diffRes(x.pan, y.pan, x.err, y.err, nil, nil, nil)
+		}
+		return diffRes(x.pan, y.pan, x.err, y.err, []string{"ciphertext", "tag"}, [][]byte{x.ct, x.tag}, [][]byte{y.ct, y.tag})
+	})
+	if randomised {
+		if repeatFlip = !repeatFlip; repeatFlip {
+			r = last
+		}
+	}
+	if r.pan != "" {
+		return r
+	}
+	settle(via, alg, rp, [][]byte{p, n, a, kb}, []string{"ciphertext", "tag"}, &r.ct, &r.tag)
 	return r
 }
 
 func kDec1(via, alg string, key jwk.Key, nonce, ct, tag, aad []byte) (r decRes) {
 	k2, kb := privKey(key)
 	c, n, t, a := lay(ct), lay(nonce), lay(tag), lay(aad)
-	defer func() {
-		if x := recover(); x != nil {
-			r = decRes{pan: panStr(x)}
-		}
-	}()
-	if via == "Decrypt" {
-		r.pt, r.err = kc.Decrypt(c, alg, k2, n, t, a)
-	} else {
+	if via != "Decrypt" {
 		via = "DecryptSymmetric"
-		r.pt, r.err = kc.DecryptSymmetric(c, alg, k2, n, t, a)
 	}
-	settle(via, alg, rpm("algorithm", alg, "key", key, "nonce", nonce, "ciphertext", ct, "tag", tag, "aad", aad), [][]byte{c, n, t, a, kb}, []string{"plaintext"}, &r.pt)
+	call := func() (r decRes) {
+		defer func() {
+			if x := recover(); x != nil {
+				r = decRes{pan: panStr(x)}
+			}
+		}()
+		if via == "Decrypt" {
+			r.pt, r.err = kc.Decrypt(c, alg, k2, n, t, a)
+		} else {
+			r.pt, r.err = kc.DecryptSymmetric(c, alg, k2, n, t, a)
+		}
+		return r
+	}
+	rp := rpm("algorithm", alg, "key", key, "nonce", nonce, "ciphertext", ct, "tag", tag, "aad", aad)
+	r = call()
+	repeatCheck(via, alg, rp, r, call, diffDec)
+	if r.pan != "" {
+		return r
+	}
+	settle(via, alg, rp, [][]byte{c, n, t, a, kb}, []string{"plaintext"}, &r.pt)
 	return r
+}
+
+func diffDec(x, y decRes) string {
+	return diffRes(x.pan, y.pan, x.err, y.err, []string{"plaintext"}, [][]byte{x.pt}, [][]byte{y.pt})
 }
 
 type rawRes struct {
@@ -124,52 +163,141 @@ type rawRes struct {
 	pan string
 }
 
-func kWrap1(b cipher.Block, cek []byte) (r rawRes) {
+func diffRaw(x, y rawRes) string {
+	return diffRes(x.pan, y.pan, x.err, y.err, []string{"output"}, [][]byte{x.out}, [][]byte{y.out})
+}
+
+// rawCall runs one byte-slice-in / byte-slice-out kit function the way every
+// wrapper does: first call, repeated calls on the same buffers, then wipe and settle.
+func rawCall(fn string, rp replayFn, inputs [][]byte, outName string, f func() ([]byte, error)) (r rawRes) {
+	call := func() (r rawRes) {
+		defer func() {
+			if p := recover(); p != nil {
+				r = rawRes{pan: panStr(p)}
+			}
+		}()
+		r.out, r.err = f()
+		return r
+	}
+	r = call()
+	repeatCheck(fn, "", rp, r, call, diffRaw)
+	if r.pan != "" {
+		return r
+	}
+	settle(fn, "", rp, inputs, []string{outName}, &r.out)
+	return r
+}
+
+func kWrap1(b cipher.Block, cek []byte) rawRes {
 	in := lay(cek)
-	defer func() {
-		if p := recover(); p != nil {
-			r = rawRes{pan: panStr(p)}
-		}
-	}()
-	r.out, r.err = aeskw.Wrap(b, in)
-	settle("aeskw.Wrap", "", rpm("cek", cek), [][]byte{in}, []string{"wrapped key"}, &r.out)
-	return r
+	return rawCall("aeskw.Wrap", rpm("cek", cek), [][]byte{in}, "wrapped key", func() ([]byte, error) { return aeskw.Wrap(b, in) })
 }
 
-func kUnwrap1(b cipher.Block, c []byte) (r rawRes) {
+func kUnwrap1(b cipher.Block, c []byte) rawRes {
 	in := lay(c)
-	defer func() {
-		if p := recover(); p != nil {
-			r = rawRes{pan: panStr(p)}
-		}
-	}()
-	r.out, r.err = aeskw.Unwrap(b, in)
-	settle("aeskw.Unwrap", "", rpm("input", c), [][]byte{in}, []string{"unwrapped key"}, &r.out)
-	return r
+	return rawCall("aeskw.Unwrap", rpm("input", c), [][]byte{in}, "unwrapped key", func() ([]byte, error) { return aeskw.Unwrap(b, in) })
 }
 
-func kSeal1(a cipher.AEAD, nonce, pt, aad []byte) (r rawRes) {
+func kSeal1(a cipher.AEAD, nonce, pt, aad []byte) rawRes {
 	n, p, ad := lay(nonce), lay(pt), lay(aad)
-	defer func() {
-		if x := recover(); x != nil {
-			r = rawRes{pan: panStr(x)}
-		}
-	}()
-	r.out = a.Seal(nil, n, p, ad)
-	settle("aescbcaead.Seal", "", rpm("nonce", nonce, "plaintext", pt, "aad", aad), [][]byte{n, p, ad}, []string{"sealed message"}, &r.out)
-	return r
+	return rawCall("aescbcaead.Seal", rpm("nonce", nonce, "plaintext", pt, "aad", aad), [][]byte{n, p, ad}, "sealed message", func() ([]byte, error) { return a.Seal(nil, n, p, ad), nil })
 }
 
-func kOpen1(a cipher.AEAD, nonce, sealed, aad []byte) (r rawRes) {
+func kOpen1(a cipher.AEAD, nonce, sealed, aad []byte) rawRes {
 	n, s, ad := lay(nonce), lay(sealed), lay(aad)
-	defer func() {
-		if x := recover(); x != nil {
-			r = rawRes{pan: panStr(x)}
+	return rawCall("aescbcaead.Open", rpm("nonce", nonce, "sealed", sealed, "aad", aad), [][]byte{n, s, ad}, "plaintext", func() ([]byte, error) { return a.Open(nil, n, s, ad) })
+}
+
+// ------------------------------------------------------------ repeated operation on the same buffers
+
+// A wrapped key, a ciphertext or a signature is typically kept and processed
+// again (a cached wrapped key is unwrapped on every request), and a plaintext
+// or key may be encrypted more than once. So every wrapper, before it
+// overwrites anything, calls kit again on the VERY SAME argument slices -
+// immediately, and once more after an unrelated kit call - and requires the
+// same answer each time: same panic/no panic, same error/no error, same output
+// bytes (for the randomised operations - RSA encryption, RSASSA-PSS, ECDSA -
+// same error/no error; which of the outputs the judges then decrypt/verify
+// alternates between the first and the last call). A call that scribbles on
+// its input makes the repetition differ.
+var (
+	repeatCalls int64
+	repeatFlip  bool
+)
+
+func diffRes(pan1, pan2 string, err1, err2 error, names []string, outs1, outs2 [][]byte) string {
+	switch {
+	case (pan1 == "") != (pan2 == ""):
+		return fmt.Sprintf("first call: %q, repeated call: %q", pan1, pan2)
+	case (err1 == nil) != (err2 == nil):
+		return fmt.Sprintf("first call error: %s, repeated call error: %s", errStr(err1), errStr(err2))
+	}
+	for i := range outs1 {
+		if !bytes.Equal(outs1[i], outs2[i]) {
+			return fmt.Sprintf("%s of the first call: %s, of the repeated call: %s", names[i], hx(outs1[i]), hx(outs2[i]))
 		}
-	}()
-	r.out, r.err = a.Open(nil, n, s, ad)
-	settle("aescbcaead.Open", "", rpm("nonce", nonce, "sealed", sealed, "aad", aad), [][]byte{n, s, ad}, []string{"plaintext"}, &r.out)
-	return r
+	}
+	return ""
+}
+
+func repeatCheck[T any](fn, alg string, rp replayFn, first T, call func() T, diff func(a, b T) string) (last T) {
+	last = first
+	if inTwin {
+		return last
+	}
+	repeatCalls++
+	report := func(sig, when, d string) {
+		violNoLayout(sigOf(fn, alg, sig), fmt.Sprintf("%s(%s) called again on the very same argument buffers (%s, nothing overwritten in between) does not give the same result: %s", fn, alg, when, d),
+			func() map[string]any {
+				m := map[string]any{}
+				if rp != nil {
+					m = rp()
+				}
+				m["difference"] = d
+				return m
+			})
+	}
+	second := call()
+	if d := diff(first, second); d != "" {
+		report("second-call-on-same-buffers-differs", "immediately after the first call", d)
+		return first
+	}
+	unrelatedCall()
+	last = call()
+	if d := diff(first, last); d != "" {
+		report("later-call-on-same-buffers-differs", "after an unrelated kit call", d)
+		return first
+	}
+	return last
+}
+
+var unrel struct {
+	ready      bool
+	k16, k32   jwk.Key
+	blk        cipher.Block
+	nonce, msg []byte
+}
+
+// unrelatedCall exercises the other code paths (AEAD, CBC-HMAC + padding, key wrap) on buffers of its own.
+func unrelatedCall() {
+	defer func() { _ = recover() }()
+	if !unrel.ready {
+		unrel.k16, _ = jwk.FromRaw(bytes.Repeat([]byte{0x5a}, 16))
+		unrel.k32, _ = jwk.FromRaw(bytes.Repeat([]byte{0x3c}, 32))
+		unrel.blk, _ = aes.NewCipher(bytes.Repeat([]byte{0x77}, 16))
+		unrel.nonce = bytes.Repeat([]byte{9}, 16)
+		unrel.msg = []byte("an unrelated message: 0123456789")
+		unrel.ready = true
+	}
+	if ct, tag, err := kc.EncryptSymmetric(clone(unrel.msg), "A128GCM", unrel.k16, clone(unrel.nonce[:12]), nil); err == nil {
+		_, _ = kc.DecryptSymmetric(ct, "A128GCM", unrel.k16, clone(unrel.nonce[:12]), tag, nil)
+	}
+	if ct, tag, err := kc.EncryptSymmetric(clone(unrel.msg), "A128CBC-HS256", unrel.k32, clone(unrel.nonce), nil); err == nil {
+		_, _ = kc.DecryptSymmetric(ct, "A128CBC-HS256", unrel.k32, clone(unrel.nonce), tag, nil)
+	}
+	if w, err := aeskw.Wrap(unrel.blk, clone(unrel.msg[:16])); err == nil {
+		_, _ = aeskw.Unwrap(unrel.blk, w)
+	}
 }
 
 // ------------------------------------------------------------ "the caller re-uses its buffers" discipline
@@ -271,7 +399,10 @@ func flushWipeCounters() {
 	if twinPairs > 0 {
 		rec.Count("retained.back_to_back_pairs_checked", int(twinPairs))
 	}
-	wipedCalls, wipedInputs, retainedChecks, twinPairs = 0, 0, 0, 0
+	if repeatCalls > 0 {
+		rec.Count("repeat.calls_repeated_on_same_buffers", int(repeatCalls))
+	}
+	wipedCalls, wipedInputs, retainedChecks, twinPairs, repeatCalls = 0, 0, 0, 0, 0
 }
 
 // ------------------------------------------------------------ retained results
@@ -1532,16 +1663,9 @@ func runHSDirect(j *judge, g group) {
 
 // ------------------------------------------------------------ padding directly
 
-func kPad1(buf []byte, size int) (r rawRes) {
+func kPad1(buf []byte, size int) rawRes {
 	in := lay(buf)
-	defer func() {
-		if p := recover(); p != nil {
-			r = rawRes{pan: panStr(p)}
-		}
-	}()
-	r.out, r.err = padding.PadPKCS7(in, size)
-	settle("padding.PadPKCS7", "", rpm("input", buf, "block_size", size), [][]byte{in}, []string{"padded buffer"}, &r.out)
-	return r
+	return rawCall("padding.PadPKCS7", rpm("input", buf, "block_size", size), [][]byte{in}, "padded buffer", func() ([]byte, error) { return padding.PadPKCS7(in, size) })
 }
 
 // kUnpad: UnpadPKCS7 returns a prefix of the buffer it is given (like
@@ -1550,17 +1674,27 @@ func kPad1(buf []byte, size int) (r rawRes) {
 // the sharing is only counted.
 func kUnpad(buf []byte, size int) (r rawRes) {
 	in := lay(buf)
-	defer func() {
-		if p := recover(); p != nil {
-			r = rawRes{pan: panStr(p)}
-		}
-	}()
-	out, err := padding.UnpadPKCS7(in, size)
-	r.out, r.err = clone(out), err
+	var live []byte
+	call := func() (r rawRes) {
+		defer func() {
+			if p := recover(); p != nil {
+				r = rawRes{pan: panStr(p)}
+			}
+		}()
+		out, err := padding.UnpadPKCS7(in, size)
+		live = out
+		r.out, r.err = clone(out), err
+		return r
+	}
+	r = call()
+	repeatCheck("padding.UnpadPKCS7", "", rpm("input", buf, "block_size", size), r, call, diffRaw)
+	if r.pan != "" {
+		return r
+	}
 	wipe(in)
 	wipedCalls++
 	wipedInputs++
-	if len(out) > 0 && !bytes.Equal(out, r.out) {
+	if len(live) > 0 && !bytes.Equal(live, r.out) {
 		unpadShares++
 	}
 	recheckRetained("padding.UnpadPKCS7", "")
